@@ -21,8 +21,11 @@ LEVEL_TEXT = ("Partial, with a recorded finding. Unbounded proof: for every file
               "on files with and without shared names.")
 LEVEL_NOTE = ("Trusted: Coq kernel; coq/Dex/RenameModel.v as a rendering of set_hook_class_name / set_hook_method_name / "
               "set_hook_field_name / set_hook_string / get_string, the id-item and encoded-item reloads and the bulk "
-              "method-id reload after a class rename (texts as numbers: original text = its string index; the Python "
-              "attribute export class_def.M / F is left out); the harness tools/props/c17.py.")
+              "method-id reload after a class rename, and of the lazy loading of EncodedMethod / EncodedField (the name is "
+              "fetched from the id item at the first get_name(), which set_hook_*_name also calls) (texts as numbers: "
+              "original text = its string index; new names may be existing strings, the item's own original name "
+              "included; the Python attribute export class_def.M / F is left out); the harness tools/props/c17.py, which "
+              "finds the items by position and takes original names from a second parse nothing else is done to.")
 TRUSTED = ["hand-written model coq/Dex/RenameModel.v", "correspondence harness tools/props/c17.py with tools/writers/dexwriter.py"]
 
 COQ_HEADER = "Require Import V.Dex.RenameModel."
@@ -35,6 +38,10 @@ def gen(rng, tier, ctx):
     cases = []
     # the recorded shapes: a method name shared by two classes, a class rename in between; a constant equal to a renamed name
     cases.append(([("Lp/A;", ["Test"], []), ("Lp/B;", ["Test"], [])], [], [("RenM", 0, NEW0), ("RenC", 1, NEW0 + 1), ("QueryM", 1, 0), ("QueryM", 0, 0)], True))
+    cases.append(([("Lp/A;", ["go"], ["f"])], [], [("RenM", 0, NEW0), ("RenM", 0, -1), ("QueryM", 0, 0), ("RenF", 0, NEW0 + 1), ("RenF", 0, -1), ("QueryF", 0, 0),
+                                                   ("RenC", 0, NEW0 + 2), ("RenC", 0, -1), ("QueryC", 0, 0), ("ReloadM", 0, 0), ("QueryM", 0, 0)], False))
+    cases.append(([("Lp/A;", ["go", "stop"], ["f", "g"])], [], [("RenM", 1, NEW0), ("RenF", 1, NEW0 + 1), ("QueryM", 0, 0), ("QueryM", 1, 0), ("QueryF", 1, 0),
+                                                                ("QueryF", 0, 0)], False))
     cases.append(([("Lp/A;", ["go"], ["f"])], ["go", "f", "Lp/A;"], [("RenM", 0, NEW0), ("QueryS", 0, 0), ("RenF", 0, NEW0 + 1), ("QueryS", 1, 0),
                                                                    ("RenC", 0, NEW0 + 2), ("QueryS", 2, 0), ("QueryM", 0, 0)], True))
     for it in range(300 if tier == "thorough" else 60):
@@ -60,12 +67,13 @@ def gen(rng, tier, ctx):
         ops, new = [], NEW0
         for _ in range(rng.randint(4, 25)):
             r = rng.random()
+            back = rng.random()      # < 0.2: the new name is the item's own original name; shared files: < 0.3 another item's original name
             if r < 0.2 and nm_:
-                ops.append(("RenM", rng.randrange(nm_), new)); new += 1
+                ops.append(("RenM", rng.randrange(nm_), -1 if back < 0.2 else -2 - rng.randrange(nm_) if back < 0.3 and shared else new)); new += 1
             elif r < 0.35 and nf_:
-                ops.append(("RenF", rng.randrange(nf_), new)); new += 1
+                ops.append(("RenF", rng.randrange(nf_), -1 if back < 0.2 else -2 - rng.randrange(nf_) if back < 0.3 and shared else new)); new += 1
             elif r < 0.5:
-                ops.append(("RenC", rng.randrange(ncls), new)); new += 1
+                ops.append(("RenC", rng.randrange(ncls), -1 if back < 0.2 else new)); new += 1
             elif r < 0.58 and nm_:
                 ops.append(("ReloadM", rng.randrange(nm_), 0))
             elif r < 0.65 and nf_:
@@ -110,20 +118,34 @@ def new_text(kind, v):
 def impl(case):
     from androguard.core.dex import DEX
     classes, consts, ops, shared = case
-    d = DEX(build(case))
+    raw = build(case)
+    d = DEX(raw)
+    d0 = DEX(raw)             # a second parse, only read: where each item is, and what it was called. Nothing is asked of d before the operations
     cm = d.get_class_manager()
-    cls = {c.get_name(): c for c in d.get_classes()}
-    cdefs = [cls[name] for name, _, _ in classes]
-    ems, efs = [], []
-    for c, (name, ms, fs) in zip(cdefs, classes):
-        byname = {m.get_name(): m for m in c.get_methods()}
-        ems += [(byname[m], classes.index((name, ms, fs))) for m in ms]
-        fbyname = {f.get_name(): f for f in c.get_fields()}
-        efs += [(fbyname[f], classes.index((name, ms, fs))) for f in fs]
-    holder = cls["Lzz/Holder;"].get_methods()[0]
+    pos = {c.get_name(): j for j, c in enumerate(d0.get_classes())}
+    all0, alld = d0.get_classes(), d.get_classes()
+    cdefs = [alld[pos[name]] for name, _, _ in classes]
+    ems, efs, m_orig, f_orig = [], [], [], []
+    for ci, (name, ms, fs) in enumerate(classes):
+        c0, c = all0[pos[name]], alld[pos[name]]
+        mpos = {m.get_name(): j for j, m in enumerate(c0.get_methods())}
+        ems += [(c.get_methods()[mpos[m]], ci) for m in ms]
+        fpos = {f.get_name(): j for j, f in enumerate(c0.get_fields())}
+        efs += [(c.get_fields()[fpos[f]], ci) for f in fs]
+        m_orig += ms
+        f_orig += fs
+    holder = alld[pos["Lzz/Holder;"]].get_methods()[0]
     cins = [i for i in holder.get_instructions() if i.get_op_value() == 0x1A]
-    strings = d.get_strings()
+    strings = d0.get_strings()
     sidx = {s: i for i, s in enumerate(strings)}
+
+    def text_for(kind, k, v):
+        if v >= 0:
+            return new_text(kind, v)
+        if kind == "RenC":
+            return classes[k][0]
+        orig = m_orig if kind == "RenM" else f_orig
+        return orig[k] if v == -1 else orig[-2 - v]
 
     def ident(text):
         if text.startswith("LR") and text.endswith(";") and text[2:-1].isdigit():
@@ -136,13 +158,14 @@ def impl(case):
              "fields": [[ci, cm.get_field_ref(f.get_field_idx()).get_name_idx()] for f, ci in efs],
              "consts": [i.get_ref_kind() for i in cins]}
     out = []
+    rops = [(kind, k, ident(text_for(kind, k, v)) if kind.startswith("Ren") else v) for kind, k, v in ops]     # new names as numbers
     for kind, k, v in ops:
         if kind == "RenM":
-            ems[k][0].set_name(new_text(kind, v)); out.append(None)
+            ems[k][0].set_name(text_for(kind, k, v)); out.append(None)
         elif kind == "RenF":
-            efs[k][0].set_name(new_text(kind, v)); out.append(None)
+            efs[k][0].set_name(text_for(kind, k, v)); out.append(None)
         elif kind == "RenC":
-            cdefs[k].set_name(new_text(kind, v)); out.append(None)
+            cdefs[k].set_name(text_for(kind, k, v)); out.append(None)
         elif kind == "ReloadM":
             ems[k][0].reload(); out.append(None)
         elif kind == "ReloadF":
@@ -155,7 +178,7 @@ def impl(case):
             out.append(ident(cdefs[k].get_name()))
         elif kind == "QueryS":
             out.append(ident(cins[k].get_string()))
-    return {"out": out, "table": table}
+    return {"out": out, "table": table, "ops": [list(o) for o in rops]}
 
 
 def canon(res):
@@ -164,7 +187,7 @@ def canon(res):
 
 def coq_input(case, res):
     t = res["table"]
-    ops = coq_list(["(%s %s)" % (k, z(i)) if k.startswith(("Reload", "Query")) else "(%s %s %s)" % (k, z(i), z(v)) for k, i, v in case[2]])
+    ops = coq_list(["(%s %s)" % (k, z(i)) if k.startswith(("Reload", "Query")) else "(%s %s %s)" % (k, z(i), z(v)) for k, i, v in res["ops"]])
     return "({| d_classes := %s; d_methods := %s; d_fields := %s; d_consts := %s |}, %s)" % (
         zlist(t["classes"]), coq_list(["(%s, %s)" % (z(a), z(b)) for a, b in t["methods"]]),
         coq_list(["(%s, %s)" % (z(a), z(b)) for a, b in t["fields"]]), zlist(t["consts"]), ops)
@@ -179,7 +202,7 @@ def oracle(case, res):
     nm = {k: idx for k, (_, idx) in enumerate(t["methods"])}
     nf = {k: idx for k, (_, idx) in enumerate(t["fields"])}
     nc = dict(enumerate(t["classes"]))
-    for step, ((kind, k, v), got) in enumerate(zip(ops, res["out"])):
+    for step, ((kind, k, v), got) in enumerate(zip(res["ops"], res["out"])):
         if kind == "RenM":
             nm[k] = v
         elif kind == "RenF":
@@ -206,6 +229,8 @@ def classify(case, res, why):
 
 def stats(cases, results):
     d = {"sequences": len(cases), "operations": sum(len(c[2]) for c in cases), "renames": sum(1 for c in cases for o in c[2] if o[0].startswith("Ren")),
+         "renames_back_to_the_original_name": sum(1 for c in cases for o in c[2] if o[0].startswith("Ren") and o[2] == -1),
+         "renames_to_another_items_original_name": sum(1 for c in cases for o in c[2] if o[0].startswith("Ren") and o[2] < -1),
          "without_shared_strings": sum(1 for c in cases if not c[3]), "queries": sum(1 for c in cases for o in c[2] if o[0].startswith("Query"))}
     return d
 
